@@ -284,11 +284,38 @@ pub fn snapshot_strings(
 //------------ Bench ---------------------------------------------------------
 
 static BENCH_COUNT: AtomicUsize = AtomicUsize::new(0);
+static LIVE: AtomicUsize = AtomicUsize::new(0);
+static EXE_LOCK: std::sync::Mutex<()> = std::sync::Mutex::new(());
 
 fn scratch_base() -> PathBuf {
     PathBuf::from(
         std::env::var("VERIF_DIR").unwrap_or_else(|_| "/verif".into())
     ).join(".scratch")
+}
+
+/// The executable acting as rsync: a private copy of this process's own
+/// binary (taken through `/proc/self/exe`, so it is the running image even
+/// if the file on disk has been replaced by a rebuild meanwhile). The copy
+/// lives in the process's scratch directory and is removed together with
+/// the last [`Bench`].
+pub fn rsync_exe() -> PathBuf {
+    let dir = scratch_base().join(format!("rt-{}", std::process::id()));
+    let target = dir.join("fake-rsync-exe");
+    let _guard = EXE_LOCK.lock().unwrap();
+    if !target.exists() {
+        let _ = fs::create_dir_all(&dir);
+        let tmp = dir.join("fake-rsync-exe.tmp");
+        if fs::copy("/proc/self/exe", &tmp).is_err() {
+            return std::env::current_exe().expect("current exe")
+        }
+        #[cfg(unix)]
+        {
+            use std::os::unix::fs::PermissionsExt;
+            let _ = fs::set_permissions(&tmp, fs::Permissions::from_mode(0o755));
+        }
+        let _ = fs::rename(&tmp, &target);
+    }
+    target
 }
 
 /// Removes scratch directories of harness processes that no longer exist.
@@ -330,6 +357,7 @@ impl Bench {
             keep: std::env::var("RPKITEST_KEEP").is_ok(),
             dir,
         };
+        LIVE.fetch_add(1, Ordering::SeqCst);
         fs::create_dir_all(&bench.cache).expect("create cache dir");
         fs::create_dir_all(&bench.tals).expect("create tal dir");
         fs::create_dir_all(&bench.server).expect("create server dir");
@@ -367,8 +395,7 @@ impl Bench {
         );
         config.no_rir_tals = true;
         config.extra_tals_dir = Some(self.tals.clone());
-        config.rsync_command = std::env::current_exe()
-            .expect("current exe").to_string_lossy().into_owned();
+        config.rsync_command = rsync_exe().to_string_lossy().into_owned();
         config.rsync_args = Some(vec![
             "fake-rsync".into(),
             "--root".into(), self.server.to_string_lossy().into_owned(),
@@ -476,8 +503,12 @@ impl Drop for Bench {
     fn drop(&mut self) {
         if !self.keep {
             let _ = fs::remove_dir_all(&self.dir);
-            if let Some(parent) = self.dir.parent() {
-                let _ = fs::remove_dir(parent);
+            if LIVE.fetch_sub(1, Ordering::SeqCst) == 1 {
+                if let Some(parent) = self.dir.parent() {
+                    let _guard = EXE_LOCK.lock().unwrap();
+                    let _ = fs::remove_file(parent.join("fake-rsync-exe"));
+                    let _ = fs::remove_dir(parent);
+                }
             }
         }
     }
